@@ -499,11 +499,11 @@ CLAUSES = [
     Clause('short-histories-from-populated-model', check_case, kind='exhaustive', enumerate=_enum_populated,
            space='all operation sequences of length <=2 (quick) / <=3 (thorough) over the same alphabet, applied to a model that already holds two hosts and a data asset'),
     Clause('tiny-language-histories', check_case, kind='random', strategy=lambda: tiny_histories(25),
-           budget={'quick': 3000, 'thorough': 30000}),
+           budget={'quick': 3000, 'thorough': 90000}),
     Clause('generated-language-histories', check_case, kind='random', strategy=lambda: lang_histories(25),
-           budget={'quick': 1500, 'thorough': 12000}),
+           budget={'quick': 1500, 'thorough': 36000}),
     Clause('corelang-histories', check_case, kind='random', strategy=lambda: corelang_histories(20),
-           budget={'quick': 320, 'thorough': 4000}),
+           budget={'quick': 320, 'thorough': 12000}),
     Clause('long-histories', check_case, kind='random', strategy=lambda: tiny_histories(40),
-           budget={'quick': 0, 'thorough': 6000}),
+           budget={'quick': 0, 'thorough': 18000}),
 ]
